@@ -136,6 +136,12 @@ def clock_of(o):
         m = DATE_RE.search(o.reply)
         if m:
             opts += " date=" + m.group(1).hex()
+        p = net.parse_frame(o.reply)
+        a = p.app if p is not None else None
+        if a is not None and len(a) >= 68 and a[4:8] == b"\xffSMB" and a[8] == 0x72:
+            opts += " ft=%d" % int.from_bytes(a[60:68], "little")       # SMB1 negotiate: ServerTime
+        elif a is not None and len(a) >= 116 and a[4:8] == b"\xfeSMB" and a[16:18] == b"\0\0":
+            opts += " ft=%d" % int.from_bytes(a[108:116], "little")     # SMB2 negotiate: ServerTime
     return opts
 
 
